@@ -4475,7 +4475,7 @@ func ruleBlockParserValidatesTables(r *Run) {
 		}
 		return false
 	}
-	var haveIdx, haveCount, haveValues, haveDims bool
+	var haveIdx, haveCount, haveValues, haveDims, countOff bool
 	for _, b := range f.Blocks {
 		ifi, ok := b.Instrs[len(b.Instrs)-1].(*ssa.If)
 		if !ok {
@@ -4503,11 +4503,22 @@ func ruleBlockParserValidatesTables(r *Run) {
 				haveIdx = true
 			}
 			if elemOf(bo.X, "Uint16") || elemOf(bo.Y, "Uint16") {
-				if _, isC := constInt(bo.Y); isC {
-					haveCount = true
+				// a sub-block of 8x8x8 voxels can hold 512 different labels, and the encoder emits such sub-blocks:
+				// the refusal starts above 512
+				const full = 512
+				if c, isC := constInt(bo.Y); isC {
+					if bo.Op == token.GTR && c == full || bo.Op == token.GEQ && c == full+1 {
+						haveCount = true
+					} else {
+						countOff = true
+					}
 				}
-				if _, isC := constInt(bo.X); isC {
-					haveCount = true
+				if c, isC := constInt(bo.X); isC {
+					if bo.Op == token.LSS && c == full || bo.Op == token.LEQ && c == full+1 {
+						haveCount = true
+					} else {
+						countOff = true
+					}
 				}
 			}
 			for d := range dataDeps(ifi.Cond) {
@@ -4532,7 +4543,7 @@ func ruleBlockParserValidatesTables(r *Run) {
 		}
 	}
 	r.check(haveIdx, "setExportedVars:sub-block-index-below-number-of-labels", "refused", "the parser accepts a block whose sub-block indices point outside its label table: POST blocks with such a block kills the process in the indexing goroutine (index out of range in CalcNumLabels), or — with noindexing — is stored and kills it at the next 2-D read", w.fpos(f))
-	r.check(haveCount, "setExportedVars:sub-block-label-count-bounded", "refused", "the parser accepts a sub-block that claims more labels than it has voxels: MakeLabelVolume indexes its 512-entry table past the end", w.fpos(f))
+	r.check(haveCount && !countOff, "setExportedVars:sub-block-label-count-bounded", "refused above 512 labels, accepted up to 512", "the parser's bound on the labels of a sub-block is missing or not 'more than 512': either a sub-block that claims more labels than it has voxels is accepted (MakeLabelVolume indexes its 512-entry table past the end), or a full sub-block of 512 labels, which the encoder emits, is refused on re-parse", w.fpos(f))
 	r.check(haveValues, "setExportedVars:packed-values-long-enough", "refused", "the parser accepts a block whose packed values are shorter than its sub-blocks need: the readers run past the end of the value bytes", w.fpos(f))
 	r.check(haveDims, "setExportedVars:no-empty-dimension", "refused", "the parser accepts a block with a dimension of 0 sub-blocks and a label table: the table aliasing indexes an empty slice", w.fpos(f))
 }
@@ -5690,4 +5701,376 @@ func ruleWorkerSignsOffOnEveryExit(r *Run) {
 		}
 	}
 	r.check(n >= 5, "repo:per-call-workers", fmt.Sprintf("%d", n), "too few: rule needs review", "-")
+}
+
+// ---------------------------------------------------------------------------------------------
+// R17.15 — a block is inside an ROI span only when the span brackets it
+
+func init() {
+	register(ruleDef{ID: "R17.15", Prop: "C17", Tier: "quick", Floor: 2,
+		Title: "a block is inside an ROI only when a span brackets it: in roi.Iterator.InsideFast the answer true lies behind comparisons of the current span's z, y, x0 and x1 with the block's z, y, x and x; and from the point where the span ends before the block every way back to the top of the loop moves on to the next span (writes and reads restricted to an ROI are masked by this answer)",
+		Fn:    ruleInsideFastBrackets})
+}
+
+func ruleInsideFastBrackets(r *Run) {
+	w := r.W
+	f := w.method("datatype/roi", "Iterator", "InsideFast")
+	if f == nil || len(f.Params) < 2 {
+		r.undecided("roi.Iterator.InsideFast", "anchor not found")
+		return
+	}
+	idxParam := f.Params[1]
+	comp := func(v ssa.Value) (int64, bool, bool) { // component index, is-span, ok
+		v = stripConv(v)
+		var base ssa.Value
+		var k int64 = -1
+		switch x := v.(type) {
+		case *ssa.Index:
+			base = x.X
+			if c, ok := constInt(x.Index); ok {
+				k = c
+			}
+		case *ssa.UnOp:
+			if ia, ok := x.X.(*ssa.IndexAddr); ok {
+				base = ia.X
+				if c, ok := constInt(ia.Index); ok {
+					k = c
+				}
+			}
+		}
+		if base == nil || k < 0 {
+			return 0, false, false
+		}
+		if base == ssa.Value(idxParam) {
+			return k, false, true
+		}
+		if al, ok := base.(*ssa.Alloc); ok {
+			for _, ref := range *al.Referrers() {
+				if st, ok := ref.(*ssa.Store); ok && st.Addr == ssa.Value(al) && st.Val == ssa.Value(idxParam) {
+					return k, false, true
+				}
+			}
+		}
+		for _, rv := range roots(base, f) {
+			if rv.V == ssa.Value(idxParam) {
+				return k, false, true
+			}
+		}
+		if strings.Contains(base.Type().String(), "Span") || strings.Contains(base.Type().String(), "[4]int32") {
+			return k, true, true
+		}
+		return 0, false, false
+	}
+	// the return of true
+	var yes []*ssa.Return
+	for _, b := range f.Blocks {
+		if ret, ok := b.Instrs[len(b.Instrs)-1].(*ssa.Return); ok && len(ret.Results) == 1 {
+			if c, ok := ret.Results[0].(*ssa.Const); ok && c.Value != nil && c.Value.Kind() == constant.Bool && constant.BoolVal(c.Value) {
+				yes = append(yes, ret)
+			}
+		}
+	}
+	if !r.check(len(yes) >= 1, "InsideFast:true-return", fmt.Sprintf("%d", len(yes)), "no return of true found: rule needs review", w.fpos(f)) {
+		return
+	}
+	want := map[[2]int64]string{{0, 2}: "z", {1, 1}: "y", {2, 0}: "x0", {3, 0}: "x1"}
+	var x1If *ssa.If
+	for _, ret := range yes {
+		have := map[[2]int64]bool{}
+		for _, b := range f.Blocks {
+			ifi, ok := b.Instrs[len(b.Instrs)-1].(*ssa.If)
+			if !ok || !b.Dominates(ret.Block()) {
+				continue
+			}
+			bo, ok := ifi.Cond.(*ssa.BinOp)
+			if !ok {
+				continue
+			}
+			kx, sx, okx := comp(bo.X)
+			ky, sy, oky := comp(bo.Y)
+			if !okx || !oky || sx == sy {
+				continue
+			}
+			pair := [2]int64{kx, ky}
+			if !sx {
+				pair = [2]int64{ky, kx}
+			}
+			have[pair] = true
+			if pair == [2]int64{3, 0} {
+				x1If = ifi
+			}
+		}
+		for pr, nm := range want {
+			r.check(have[pr], "InsideFast:true-behind-"+nm+"-comparison", "the answer true lies behind a comparison of the span's "+nm+" with the block",
+				"the answer 'inside' is given without the span's "+nm+" having been compared with the block: blocks beside the span count as inside, and a write restricted to the ROI changes voxels outside it", w.pos(ret.Pos()))
+		}
+	}
+	// progress: from the x1 test's other edge back to the loop head only through an advance of curSpan
+	if x1If != nil {
+		h, set, _ := innermostLoop(f, x1If.Block())
+		adv := func(x ssa.Instruction) bool {
+			st, ok := x.(*ssa.Store)
+			if !ok {
+				return false
+			}
+			fa, ok := st.Addr.(*ssa.FieldAddr)
+			if !ok {
+				return false
+			}
+			nm, _, _ := fieldName(fa)
+			return nm == "curSpan"
+		}
+		progress := false
+		if set != nil {
+			var head ssa.Instruction
+			for _, x := range h.Instrs {
+				if _, isPhi := x.(*ssa.Phi); !isPhi {
+					head = x
+					break
+				}
+			}
+			// successor not leading to the true return
+			for i, s := range x1If.Block().Succs {
+				leadsYes := false
+				for _, ret := range yes {
+					if s == ret.Block() || s.Dominates(ret.Block()) {
+						leadsYes = true
+					}
+				}
+				if leadsYes {
+					continue
+				}
+				_ = i
+				if len(s.Instrs) == 0 {
+					continue
+				}
+				first := s.Instrs[0]
+				if adv(first) {
+					progress = true
+					continue
+				}
+				p := findPath(f, first, adv, func(x ssa.Instruction) bool { return x == head }, nil)
+				progress = p == nil && set[s]
+			}
+		}
+		r.check(progress, "InsideFast:span-before-block-moves-on", "every way back to the top of the loop advances to the next span",
+			"when the current span ends before the block the iterator does not move on to the next span (or leaves the loop): a later span of the same row is never consulted and its blocks count as outside the ROI", w.pos(x1If.Pos()))
+	}
+}
+
+// ---------------------------------------------------------------------------------------------
+// Round g (C03, C13)
+
+func init() {
+	reg := func(id, prop string) {
+		register(ruleDef{ID: id, Prop: prop, Tier: "quick", Floor: 1,
+			Title: "the start-up load takes the stored next label as it is: in labelmap's loadLabelIDs the store of the decoded value into NextLabel is decided by the stored bytes alone (present, 8 bytes), not by a comparison with another counter — a rule the running server does not enforce would make the value differ across a restart",
+			Fn:    ruleNextLabelLoadedAsStored})
+	}
+	reg("R3.30", "C03")
+	reg("R12.22", "C12")
+	register(ruleDef{ID: "R13.29", Prop: "C13", Tier: "quick", Floor: 1,
+		Title: "a cleave that empties the target's element list deletes the target's list: in annotation.cleaveLabels the label key deleted when a body is left without elements is the key of op.Target, the body that lost them",
+		Fn:    ruleCleaveDeletesTargetList})
+	register(ruleDef{ID: "R13.30", Prop: "C13", Tier: "quick", Floor: 2,
+		Title: "all-synapse counts move only for synaptic elements: in labelsz.modifyElements every change of the AllSyn entry of the modification table lies behind Kind.IsSynaptic() — for additions and for deletions alike",
+		Fn:    ruleAllSynOnlyForSynaptic})
+}
+
+func ruleNextLabelLoadedAsStored(r *Run) {
+	w := r.W
+	f := w.method("datatype/labelmap", "Data", "loadLabelIDs")
+	if f == nil {
+		r.undecided("labelmap.Data.loadLabelIDs", "anchor not found")
+		return
+	}
+	n := 0
+	for _, st := range fieldStores(f, "Data", "NextLabel") {
+		n++
+		bad := ""
+		for _, b := range f.Blocks {
+			ifi, ok := b.Instrs[len(b.Instrs)-1].(*ssa.If)
+			if !ok || !(guardedByEdge(ifi, 0, st) || guardedByEdge(ifi, 1, st)) {
+				continue
+			}
+			for d := range dataDeps(ifi.Cond) {
+				if u, ok := d.(*ssa.UnOp); ok {
+					if fa, ok := u.X.(*ssa.FieldAddr); ok && typeIs(fa.X.Type(), "datatype/labelmap", "Data") {
+						nm, _, _ := fieldName(fa)
+						bad = nm + " at " + w.pos(ifi.Pos())
+					}
+				}
+			}
+		}
+		r.check(bad == "", fmt.Sprintf("loadLabelIDs:NextLabel-store#%d:as-stored", n), "the store depends on the stored bytes only",
+			"the stored next label is taken over only under a condition on "+bad+": the running server accepts any next label, so a value it served before the restart is dropped after it — labels are then issued from another counter", w.pos(st.Pos()))
+	}
+	r.check(n >= 1, "loadLabelIDs:NextLabel-stores", fmt.Sprintf("%d", n), "no store found: rule needs review", w.fpos(f))
+}
+
+func ruleCleaveDeletesTargetList(r *Run) {
+	w := r.W
+	f := w.method("datatype/annotation", "Data", "cleaveLabels")
+	if f == nil {
+		r.undecided("annotation.Data.cleaveLabels", "anchor not found")
+		return
+	}
+	n := 0
+	for _, c := range calls(f) {
+		if methodNameOf(c) != "Delete" || !c.Common().IsInvoke() {
+			continue
+		}
+		args := c.Common().Args
+		key := args[len(args)-1]
+		var kc *ssa.Call
+		for _, rv := range roots(key, f) {
+			if x, ok := rv.V.(*ssa.Call); ok {
+				if callee := x.Call.StaticCallee(); callee != nil && callee.Name() == "NewLabelTKey" {
+					kc = x
+				}
+			}
+		}
+		if kc == nil {
+			continue
+		}
+		n++
+		nm, ok := fieldSel(kc.Call.Args[0])
+		r.check(ok && nm == "Target", fmt.Sprintf("cleaveLabels:emptied-list-delete#%d", n), "deletes the list of op.Target",
+			"the list deleted when a cleave leaves a body without elements is not the target's: label/<target> keeps listing elements that now belong to the cleaved body", w.pos(c.Pos()))
+	}
+	r.check(n >= 1, "cleaveLabels:list-deletes", fmt.Sprintf("%d", n), "no delete of a label list found: rule needs review", w.fpos(f))
+}
+
+func ruleAllSynOnlyForSynaptic(r *Run) {
+	w := r.W
+	f := w.method("datatype/labelsz", "Data", "modifyElements")
+	if f == nil {
+		r.undecided("labelsz.Data.modifyElements", "anchor not found")
+		return
+	}
+	n := 0
+	for _, b := range f.Blocks {
+		for _, in := range b.Instrs {
+			mu, ok := in.(*ssa.MapUpdate)
+			if !ok {
+				continue
+			}
+			// the key comes from newIndexedLabel(AllSyn, …)
+			all := false
+			for _, rv := range roots(mu.Key, f) {
+				if kc, ok := rv.V.(*ssa.Call); ok {
+					if callee := kc.Call.StaticCallee(); callee != nil && callee.Name() == "newIndexedLabel" {
+						if c, ok := kc.Call.Args[0].(*ssa.Const); ok {
+							if v, ok := constInt(c); ok && w.pkgScopeConst("datatype/labelsz", "AllSyn") != nil {
+								if want, ok2 := constant.Int64Val(w.pkgScopeConst("datatype/labelsz", "AllSyn")); ok2 && want == v {
+									all = true
+								}
+							}
+						}
+					}
+				}
+			}
+			if !all {
+				continue
+			}
+			n++
+			guarded := false
+			for _, b2 := range f.Blocks {
+				ifi, isIf := b2.Instrs[len(b2.Instrs)-1].(*ssa.If)
+				if !isIf {
+					continue
+				}
+				if c, ok := ifi.Cond.(*ssa.Call); ok && methodNameOf(c) == "IsSynaptic" && guardedByEdge(ifi, 0, mu) {
+					guarded = true
+				}
+			}
+			r.check(guarded, fmt.Sprintf("modifyElements:AllSyn-change#%d:only-for-synaptic-kinds", n), "behind Kind.IsSynaptic()",
+				"the all-synapse count of a body is changed for an element of any kind: deleting or moving a Note takes one off the body's AllSyn count, which then disagrees with the body's list of synaptic elements", w.pos(mu.Pos()))
+		}
+	}
+	r.check(n >= 2, "modifyElements:AllSyn-changes", fmt.Sprintf("%d", n), "fewer than expected: rule needs review", w.fpos(f))
+}
+
+// ---------------------------------------------------------------------------------------------
+// R18.20 / R20.67 — a run filed under a block ends inside that block
+
+func init() {
+	reg := func(id, prop string) {
+		register(ruleDef{ID: id, Prop: prop, Tier: "quick", Floor: 2,
+			Title: "a run filed under a block ends inside that block: in RLEs.Partition the length handed to appendBlockRLE is the distance from the run's x to the block's end, or a remaining length that a comparison found smaller than that distance — the per-block split workers index the block's voxel array by these runs, unchecked, in goroutines no recover covers",
+			Fn:    rulePartitionClipsRuns})
+	}
+	reg("R18.20", "C18")
+	reg("R20.67", "C20")
+}
+
+func rulePartitionClipsRuns(r *Run) {
+	w := r.W
+	f := w.method("dvid", "RLEs", "Partition")
+	if f == nil || len(f.Params) < 2 {
+		r.undecided("dvid.RLEs.Partition", "anchor not found")
+		return
+	}
+	bsz := f.Params[1]
+	toBlockEnd := func(v ssa.Value) bool {
+		bo, ok := stripConv(v).(*ssa.BinOp)
+		if !ok || bo.Op != token.SUB {
+			return false
+		}
+		for d := range dataDeps(bo.X) {
+			switch x := d.(type) {
+			case *ssa.Index:
+				if x.X == ssa.Value(bsz) {
+					return true
+				}
+			case *ssa.UnOp:
+				if ia, ok := x.X.(*ssa.IndexAddr); ok {
+					if al, ok := ia.X.(*ssa.Alloc); ok {
+						for _, ref := range *al.Referrers() {
+							if st, ok := ref.(*ssa.Store); ok && st.Addr == ssa.Value(al) && st.Val == ssa.Value(bsz) {
+								return true
+							}
+						}
+					}
+				}
+			}
+		}
+		return false
+	}
+	n := 0
+	for _, c := range calls(f) {
+		callee := staticCallee(c)
+		if callee == nil || callee.Name() != "appendBlockRLE" {
+			continue
+		}
+		n++
+		args := c.Common().Args
+		length := args[len(args)-1]
+		ok := toBlockEnd(length)
+		if !ok {
+			for _, b := range f.Blocks {
+				ifi, isIf := b.Instrs[len(b.Instrs)-1].(*ssa.If)
+				if !isIf {
+					continue
+				}
+				bo, isBo := ifi.Cond.(*ssa.BinOp)
+				if !isBo {
+					continue
+				}
+				switch {
+				case bo.Op == token.LSS && stripConv(bo.X) == stripConv(length) && toBlockEnd(bo.Y) && guardedByEdge(ifi, 0, c):
+					ok = true
+				case bo.Op == token.LEQ && stripConv(bo.X) == stripConv(length) && toBlockEnd(bo.Y) && guardedByEdge(ifi, 0, c):
+					ok = true
+				case bo.Op == token.GTR && stripConv(bo.Y) == stripConv(length) && toBlockEnd(bo.X) && guardedByEdge(ifi, 0, c):
+					ok = true
+				case bo.Op == token.GEQ && stripConv(bo.X) == stripConv(length) && toBlockEnd(bo.Y) && guardedByEdge(ifi, 1, c):
+					ok = true
+				}
+			}
+		}
+		r.check(ok, fmt.Sprintf("Partition:filed-run#%d:clipped-to-its-block", n), "the length is the distance to the block's end or was found smaller than it",
+			"a run is filed under a block with a length that was not clipped to the block: a run that crosses the block's X boundary is handed whole to the worker of its first block, which indexes past the end of the block's voxels (in the split workers' goroutines: the process ends) or spills into the next row", w.pos(c.Pos()))
+	}
+	r.check(n >= 2, "Partition:filed-runs", fmt.Sprintf("%d", n), "fewer than expected: rule needs review", w.fpos(f))
 }
